@@ -864,3 +864,814 @@ Proof.
   rewrite (valid_shape_partial t Hnd (proj1 (wf8_not_raises e) t Hw)).
   rewrite (NoDup_nodup_keys _ (anchors_distinct e t Hnd Hw)). reflexivity.
 Qed.
+
+(* ================================================================== part 4: from_json on the generated schema *)
+Section LoadP.
+  Variable filler : id -> bool.
+
+  Definition keys (c : cache) : list key := map fst c.
+  Definition entry_ok (p : key * desc) : Prop := snd (snd p) = Some (fst p) \/ snd (snd p) = None.
+  Definition titled (c : cache) (k : key) : Prop := exists cl, In (k, (cl, None)) c.
+  Definition usable (c : cache) (k : key) : Prop := In k (keys c) /\ ~ titled c k.
+
+  Lemma titled_app r c k : titled (r ++ c) k <-> titled r k \/ titled c k.
+  Proof.
+    unfold titled. split.
+    - intros [cl H]. apply in_app_or in H as [H|H]; [left|right]; exists cl; exact H.
+    - intros [[cl H]|[cl H]]; exists cl; apply in_or_app; [left|right]; exact H.
+  Qed.
+
+  Lemma usable_lookup c k : Forall entry_ok c -> usable c k -> exists cl, clookup k c = Some (cl, Some k).
+  Proof.
+    induction c as [|[k' [cl a]] c IH]; intros Hok [Hin Hnt]; [destruct Hin|].
+    inversion Hok as [|? ? Hh Ht]; subst. cbn [clookup].
+    destruct (key_eqb k k') eqn:E.
+    - apply key_eqb_eq in E. subst k'. destruct Hh as [Hh|Hh]; cbn [fst snd] in Hh; subst a.
+      + exists cl. reflexivity.
+      + exfalso. apply Hnt. exists cl. left. reflexivity.
+    - apply IH; [exact Ht|]. split.
+      + destruct Hin as [Hin|Hin]; [cbn [fst] in Hin; subst k'; rewrite (proj2 (key_eqb_eq k k) eq_refl) in E; discriminate|exact Hin].
+      + intros [cl' H]. apply Hnt. exists cl'. right. exact H.
+  Qed.
+
+  Lemma usable_ext r c k : usable c k -> ~ titled r k -> usable (r ++ c) k.
+  Proof.
+    intros [Hin Hnt] Hr. split.
+    - unfold keys. rewrite map_app. apply in_or_app. right. exact Hin.
+    - intros H. apply titled_app in H as [H|H]; contradiction.
+  Qed.
+
+  (* titles: the names under which nodes WITHOUT $anchor are cached *)
+  Definition own_title (s : js) : list key :=
+    match js_anchor s with
+    | Some _ => []
+    | None => match cache_key filler s with Some k => [k] | None => [] end
+    end.
+
+  Fixpoint titles_of (s : js) : list key :=
+    own_title s ++
+    match s with
+    | JAtom _ _ => []
+    | JArr _ _ its => titles_of its
+    | JOdo _ _ its => titles_of its
+    | JObj _ ps => titles_props ps
+    | JOne _ alts => titles_alts alts
+    | JRef _ => []
+    end
+  with titles_props (ps : props) : list key :=
+    match ps with PNil => [] | PCons _ s r => titles_of s ++ titles_props r end
+  with titles_alts (alts : jalts) : list key :=
+    match alts with ANil => [] | ACons s r => titles_of s ++ titles_alts r end.
+
+  (* what a walk adds to the cache *)
+  Definition adds (r : cache) (anchors titles : list key) : Prop :=
+    Forall entry_ok r /\ incl anchors (keys r) /\ (forall k, titled r k -> In k titles).
+
+  Lemma adds_nil : adds [] [] [].
+  Proof. split; [constructor|]. split; [intros k []|intros k [cl []]]. Qed.
+
+  Lemma adds_app r2 r1 a1 a2 t1 t2 : adds r1 a1 t1 -> adds r2 a2 t2 -> adds (r2 ++ r1) (a1 ++ a2) (t1 ++ t2).
+  Proof.
+    intros [A1 [B1 C1]] [A2 [B2 C2]]. split; [apply Forall_app; split; assumption|]. split.
+    - intros k Hk. unfold keys. rewrite map_app. apply in_or_app. apply in_app_or in Hk as [Hk|Hk]; [right; apply B1|left; apply B2]; exact Hk.
+    - intros k Hk. apply titled_app in Hk as [Hk|Hk]; apply in_or_app; [right; apply C2|left; apply C1]; exact Hk.
+  Qed.
+
+  Lemma register_adds s cl c :
+    exists r, register filler s (cl, js_anchor s) c = r ++ c
+              /\ adds r (match js_anchor s with Some k => [k] | None => [] end) (own_title s).
+  Proof.
+    unfold register, own_title. destruct (js_anchor s) as [k|] eqn:Ea.
+    - assert (cache_key filler s = Some k) as -> by (unfold cache_key; rewrite Ea; reflexivity).
+      exists [(k, (cl, Some k))]. split; [reflexivity|]. split; [constructor; [left; reflexivity|constructor]|].
+      split; [intros x [<-|[]]; left; reflexivity|]. intros x [cl' [H|[]]]. inversion H.
+    - destruct (cache_key filler s) as [k|].
+      + exists [(k, (cl, None))]. split; [reflexivity|]. split; [constructor; [right; reflexivity|constructor]|].
+        split; [intros x []|]. intros x [cl' [H|[]]]. inversion H; subst. left. reflexivity.
+      + exists []. split; [reflexivity|]. apply adds_nil.
+  Qed.
+
+  Lemma adds_weaken r a t a' t' : adds r a t -> incl a' a -> incl t t' -> adds r a' t'.
+  Proof. intros [A [B C]] Ha Ht. split; [exact A|]. split; [intros k Hk; apply B, Ha, Hk|intros k Hk; apply Ht, C, Hk]. Qed.
+
+  (* unfolding equations of the loader model *)
+  Lemma lwalk_JAtom a sz c : lwalk filler (JAtom a sz) c = Ok (register filler (JAtom a sz) (CAtomic, a) c, []).
+  Proof. reflexivity. Qed.
+  Lemma lwalk_JArr a n its c : lwalk filler (JArr a n its) c =
+    match lwalk filler its c with Err e => Err e | Ok (c1, l1) => Ok (register filler (JArr a n its) (CArray, a) c1, l1) end.
+  Proof. reflexivity. Qed.
+  Lemma lwalk_JOdo a cn its c : lwalk filler (JOdo a cn its) c =
+    match lwalk filler its c with
+    | Err e => Err e
+    | Ok (c1, l1) => match clookup (KName cn) c1 with
+                     | None => Err ValueError
+                     | Some d => Ok (register filler (JOdo a cn its) (CDepends, a) c1, l1 ++ [(KName cn, Some d)])
+                     end
+    end.
+  Proof. reflexivity. Qed.
+  Lemma lwalk_JObj a ps c : lwalk filler (JObj a ps) c =
+    match lwalk_props filler ps c with Err e => Err e | Ok (c1, l1) => Ok (register filler (JObj a ps) (CObject, a) c1, l1) end.
+  Proof. reflexivity. Qed.
+  Lemma lwalk_JOne a s0 r0 c : lwalk filler (JOne a (ACons s0 r0)) c =
+    match lwalk_alts filler (ACons s0 r0) c with
+    | Err e => Err e
+    | Ok (c1, l1) => Ok (register filler (JOne a (ACons s0 r0)) (COneOf, a) c1, l1)
+    end.
+  Proof. reflexivity. Qed.
+  Lemma lwalk_JRef k c : lwalk filler (JRef k) c = Ok (register filler (JRef k) (CRef, None) c, [(k, clookup k c)]).
+  Proof. reflexivity. Qed.
+  Lemma lwalk_props_cons k s r c : lwalk_props filler (PCons k s r) c =
+    match lwalk filler s c with
+    | Err e => Err e
+    | Ok (c1, l1) => match lwalk_props filler r c1 with Err e => Err e | Ok (c2, l2) => Ok (c2, l1 ++ l2) end
+    end.
+  Proof. reflexivity. Qed.
+  Lemma lwalk_alts_cons s r c : lwalk_alts filler (ACons s r) c =
+    match lwalk filler s c with
+    | Err e => Err e
+    | Ok (c1, l1) => match lwalk_alts filler r c1 with Err e => Err e | Ok (c2, l2) => Ok (c2, l1 ++ l2) end
+    end.
+  Proof. reflexivity. Qed.
+
+  Lemma lwalk_adds :
+    (forall s c c' l, lwalk filler s c = Ok (c', l) -> exists r, c' = r ++ c /\ adds r (anchors_of s) (titles_of s))
+    /\ (forall ps c c' l, lwalk_props filler ps c = Ok (c', l) -> exists r, c' = r ++ c /\ adds r (anchors_props ps) (titles_props ps))
+    /\ (forall al c c' l, lwalk_alts filler al c = Ok (c', l) -> exists r, c' = r ++ c /\ adds r (anchors_alts al) (titles_alts al)).
+  Proof.
+    apply js_props_alts_ind.
+    - intros a sz c c' l H. rewrite lwalk_JAtom in H. inversion H; subst.
+      destruct (register_adds (JAtom a sz) CAtomic c) as [r [E A]]. cbn [js_anchor] in E. exists r. split; [exact E|].
+      eapply adds_weaken; [exact A| |]; cbn [anchors_of titles_of js_anchor]; rewrite ?app_nil_r; apply incl_refl.
+    - intros a n its IH c c' l H. rewrite lwalk_JArr in H.
+      destruct (lwalk filler its c) as [[c1 l1]|] eqn:E1; [|discriminate]. inversion H; subst.
+      destruct (IH _ _ _ E1) as [r1 [-> A1]].
+      destruct (register_adds (JArr a n its) CArray (r1 ++ c)) as [r [E A]]. cbn [js_anchor] in E. rewrite E.
+      exists (r ++ r1). split; [apply app_assoc|].
+      eapply adds_weaken; [exact (adds_app _ _ _ _ _ _ A1 A)| |]; cbn [anchors_of titles_of js_anchor];
+        intros k Hk; repeat (rewrite in_app_iff in * ); tauto.
+    - intros a cn its IH c c' l H. rewrite lwalk_JOdo in H.
+      destruct (lwalk filler its c) as [[c1 l1]|] eqn:E1; [|discriminate].
+      destruct (clookup (KName cn) c1); [|discriminate]. inversion H; subst.
+      destruct (IH _ _ _ E1) as [r1 [-> A1]].
+      destruct (register_adds (JOdo a cn its) CDepends (r1 ++ c)) as [r [E A]]. cbn [js_anchor] in E. rewrite E.
+      exists (r ++ r1). split; [apply app_assoc|].
+      eapply adds_weaken; [exact (adds_app _ _ _ _ _ _ A1 A)| |]; cbn [anchors_of titles_of js_anchor];
+        intros k Hk; repeat (rewrite in_app_iff in * ); tauto.
+    - intros a ps IH c c' l H. rewrite lwalk_JObj in H.
+      destruct (lwalk_props filler ps c) as [[c1 l1]|] eqn:E1; [|discriminate]. inversion H; subst.
+      destruct (IH _ _ _ E1) as [r1 [-> A1]].
+      destruct (register_adds (JObj a ps) CObject (r1 ++ c)) as [r [E A]]. cbn [js_anchor] in E. rewrite E.
+      exists (r ++ r1). split; [apply app_assoc|].
+      eapply adds_weaken; [exact (adds_app _ _ _ _ _ _ A1 A)| |]; cbn [anchors_of titles_of js_anchor];
+        intros k Hk; repeat (rewrite in_app_iff in * ); tauto.
+    - intros a al IH c c' l H. destruct al as [|s0 r0]; [discriminate|]. rewrite lwalk_JOne in H.
+      destruct (lwalk_alts filler (ACons s0 r0) c) as [[c1 l1]|] eqn:E1; [|discriminate]. inversion H; subst.
+      destruct (IH _ _ _ E1) as [r1 [-> A1]].
+      destruct (register_adds (JOne a (ACons s0 r0)) COneOf (r1 ++ c)) as [r [E A]]. cbn [js_anchor] in E. rewrite E.
+      exists (r ++ r1). split; [apply app_assoc|].
+      eapply adds_weaken; [exact (adds_app _ _ _ _ _ _ A1 A)| |]; cbn [anchors_of titles_of js_anchor];
+        intros k Hk; repeat (rewrite in_app_iff in * ); tauto.
+    - intros k c c' l H. rewrite lwalk_JRef in H. inversion H; subst.
+      destruct (register_adds (JRef k) CRef c) as [r [E A]]. cbn [js_anchor] in E. exists r. split; [exact E|].
+      eapply adds_weaken; [exact A| |]; cbn [anchors_of titles_of js_anchor]; rewrite ?app_nil_r; apply incl_refl.
+    - intros c c' l H. cbn in H. inversion H; subst. exists []. split; [reflexivity|apply adds_nil].
+    - intros k s IHs r IHr c c' l H. rewrite lwalk_props_cons in H.
+      destruct (lwalk filler s c) as [[c1 l1]|] eqn:E1; [|discriminate].
+      destruct (lwalk_props filler r c1) as [[c2 l2]|] eqn:E2; [|discriminate]. inversion H; subst.
+      destruct (IHs _ _ _ E1) as [r1 [-> A1]]. destruct (IHr _ _ _ E2) as [r2 [-> A2]].
+      exists (r2 ++ r1). split; [apply app_assoc|]. exact (adds_app _ _ _ _ _ _ A1 A2).
+    - intros c c' l H. cbn in H. inversion H; subst. exists []. split; [reflexivity|apply adds_nil].
+    - intros s IHs r IHr c c' l H. rewrite lwalk_alts_cons in H.
+      destruct (lwalk filler s c) as [[c1 l1]|] eqn:E1; [|discriminate].
+      destruct (lwalk_alts filler r c1) as [[c2 l2]|] eqn:E2; [|discriminate]. inversion H; subst.
+      destruct (IHs _ _ _ E1) as [r1 [-> A1]]. destruct (IHr _ _ _ E2) as [r2 [-> A2]].
+      exists (r2 ++ r1). split; [apply app_assoc|]. exact (adds_app _ _ _ _ _ _ A1 A2).
+  Qed.
+
+  (* ---- the titles of a built schema ---- *)
+  Variable e : env.
+
+  Definition tk (i : id) : list key := if filler i then [] else [KName i].
+
+  Lemma own_title_ref i : own_title (JRef (KName i)) = tk i.
+  Proof. unfold own_title, tk. cbn. destruct (filler i); reflexivity. Qed.
+
+  Lemma elem_titles i sz oc rd :
+    titles_of (build_alt (Elem i sz oc rd)) = match oc with Once => [] | _ => tk i end.
+  Proof. destruct oc; cbn; unfold tk; destruct (filler i); reflexivity. Qed.
+
+  Lemma group_titles i oc rd ks :
+    NoDup (L.ids_kids ks) -> wf8 e (Group i oc rd ks) = true ->
+    titles_of (build_alt (Group i oc rd ks)) = titles_props (L.assemble_d ks).
+  Proof.
+    intros Hnd Hw. cbn [wf8] in Hw. apply andb_true_iff in Hw as [Hw Hoc]. apply andb_true_iff in Hw as [_ Hu].
+    destruct oc as [|n|c].
+    - rewrite (L.build_group_once e) by assumption. reflexivity.
+    - destruct (redef_targets ks) eqn:Er; [|discriminate]. rewrite (L.no_redef_assemble ks Er). reflexivity.
+    - destruct (redef_targets ks) eqn:Er; [|discriminate]. rewrite (L.no_redef_assemble ks Er). reflexivity.
+  Qed.
+
+  Lemma titles_alts_red u xs k :
+    In k (titles_alts (L.alts_red u xs)) ->
+    exists y, L.in_kids y xs /\ item_redef y = Some u /\ In k (titles_of (build_alt y)).
+  Proof.
+    induction xs as [|y ys IH]; intros H; [destruct H|].
+    cbn [L.alts_red] in H. destruct (item_redef y) as [u'|] eqn:Er.
+    - destruct (N.eqb u u') eqn:E.
+      + apply N.eqb_eq in E. subst u'. cbn [titles_alts] in H. apply in_app_or in H as [H|H].
+        * exists y. split; [left; reflexivity|split; assumption].
+        * destruct (IH H) as [z [A B]]. exists z. split; [right; exact A|exact B].
+      + destruct (IH H) as [z [A B]]. exists z. split; [right; exact A|exact B].
+    - destruct (IH H) as [z [A B]]. exists z. split; [right; exact A|exact B].
+  Qed.
+
+  Lemma anchors_alts_red u xs y k :
+    L.in_kids y xs -> item_redef y = Some u -> In k (anchors_of (build_alt y)) -> In k (anchors_alts (L.alts_red u xs)).
+  Proof.
+    induction xs as [|z zs IH]; intros Hin Er Hk; [destruct Hin|].
+    cbn [L.alts_red]. destruct Hin as [->|Hin].
+    - rewrite Er, N.eqb_refl. cbn [anchors_alts]. apply in_or_app. left. exact Hk.
+    - destruct (item_redef z) as [u'|]; [destruct (N.eqb u u')|]; try (cbn [anchors_alts]; apply in_or_app; right); apply IH; assumption.
+  Qed.
+
+  Lemma kids_disjoint ks : forall y z j,
+    L.in_kids y ks -> L.in_kids z ks -> NoDup (L.ids_kids ks) -> In j (L.ids y) -> In j (L.ids z) -> y = z.
+  Proof.
+    induction ks as [|x xs IH]; intros y z j Hy Hz Hnd Jy Jz; [destruct Hy|].
+    cbn [L.ids_kids] in Hnd. destruct Hy as [->|Hy], Hz as [->|Hz].
+    - reflexivity.
+    - exfalso. apply (L.NoDup_app_disj _ _ j Hnd Jy). apply (L.in_kids_ids_incl z xs Hz). exact Jz.
+    - exfalso. apply (L.NoDup_app_disj _ _ j Hnd Jz). apply (L.in_kids_ids_incl y xs Hy). exact Jy.
+    - apply (IH y z j Hy Hz (L.NoDup_app_r _ _ Hnd) Jy Jz).
+  Qed.
+
+  Lemma decl_where :
+    (forall x j, In j (decl x) -> match x with Elem _ _ _ _ => False | Group _ _ _ ks => In j (L.ids_kids ks) end)
+    /\ (forall ks j, In j (decl_kids ks) -> exists z, L.in_kids z ks /\ item_redef z = None /\ In j (L.ids z)).
+  Proof.
+    apply item_items_ind.
+    - intros i sz oc rd j [].
+    - intros i oc rd ks IH j Hj. cbn [decl] in Hj. destruct (IH j Hj) as [z [A [_ B]]].
+      apply (L.in_kids_ids_incl z ks A). exact B.
+    - intros j [].
+    - intros x IHx xs IHxs j Hj. cbn [decl_kids] in Hj. apply in_app_or in Hj as [Hj|Hj].
+      + destruct (item_redef x) eqn:Er; [destruct Hj|]. exists x. split; [left; reflexivity|]. split; [exact Er|].
+        apply in_app_or in Hj as [Hj|Hj].
+        * destruct (eligible x xs); [|destruct Hj]. destruct Hj as [<-|[]]. apply L.item_id_in_ids.
+        * specialize (IHx j Hj). destruct x as [|i oc rd ks]; [destruct IHx|]. cbn [L.ids]. right. exact IHx.
+      + destruct (IHxs j Hj) as [z [A B]]. exists z. split; [right; exact A|exact B].
+  Qed.
+
+  Lemma decl_strict x j : NoDup (L.ids x) -> In j (decl x) -> In j (L.ids x) /\ j <> item_id x.
+  Proof.
+    intros Hnd Hj. pose proof (proj1 decl_where x j Hj) as H. destruct x as [|i oc rd ks]; [destruct H|].
+    cbn [L.ids item_id] in *. inversion Hnd as [|? ? Hi _]; subst. split; [right; exact H|]. intros ->. contradiction.
+  Qed.
+
+  Definition T1 (x : item) : Prop :=
+    forall k, In k (titles_of (build_alt x)) -> exists j, k = KName j /\ In j (L.ids x).
+  Definition T3 (x : item) : Prop :=
+    forall j, In j (decl x) -> ~ In (KName j) (titles_of (build_alt x)).
+
+  Lemma tk_in k i : In k (tk i) -> k = KName i.
+  Proof. unfold tk. destruct (filler i); [intros []|intros [<-|[]]; reflexivity]. Qed.
+
+  Lemma titles_props_cons k s r : titles_props (PCons k s r) = titles_of s ++ titles_props r.
+  Proof. reflexivity. Qed.
+  Lemma titles_ref k : titles_of (JRef k) = own_title (JRef k) ++ [].
+  Proof. reflexivity. Qed.
+  Lemma titles_one a s r : titles_of (JOne (Some a) (ACons s r)) = titles_of s ++ titles_alts r.
+  Proof. reflexivity. Qed.
+
+  Lemma titles_assemble_cons x xs :
+    titles_props (L.assemble_d (ICons x xs)) =
+    match item_redef x with
+    | Some _ => tk (item_id x) ++ titles_props (L.assemble_d xs)
+    | None =>
+        if existsb (N.eqb (item_id x)) (redef_targets xs)
+        then (titles_of (build_alt x) ++ titles_alts (L.alts_red (item_id x) xs)) ++ tk (item_id x) ++ titles_props (L.assemble_d xs)
+        else titles_of (build_alt x) ++ titles_props (L.assemble_d xs)
+    end.
+  Proof.
+    cbn [L.assemble_d]. destruct (item_redef x) as [u|].
+    - rewrite titles_props_cons, titles_ref, own_title_ref, app_nil_r. reflexivity.
+    - destruct (existsb (N.eqb (item_id x)) (redef_targets xs)).
+      + rewrite titles_props_cons, titles_one, titles_props_cons, titles_ref, own_title_ref, app_nil_r. reflexivity.
+      + rewrite titles_props_cons. reflexivity.
+  Qed.
+
+  Lemma T1_kids ks :
+    (forall y, L.in_kids y ks -> T1 y) ->
+    forall k, In k (titles_props (L.assemble_d ks)) -> exists j, k = KName j /\ In j (L.ids_kids ks).
+  Proof.
+    induction ks as [|x xs IH]; intros Hk k Hin; [destruct Hin|].
+    assert (Hx : T1 x) by (apply Hk; left; reflexivity).
+    assert (Hxs : forall y, L.in_kids y xs -> T1 y) by (intros y Hy; apply Hk; right; exact Hy).
+    assert (Hrest : In k (titles_props (L.assemble_d xs)) -> exists j, k = KName j /\ In j (L.ids_kids (ICons x xs))).
+    { intros H. destruct (IH Hxs k H) as [j [A B]]. exists j. split; [exact A|]. cbn [L.ids_kids]. apply in_or_app. right. exact B. }
+    assert (Hhead : In k (titles_of (build_alt x)) -> exists j, k = KName j /\ In j (L.ids_kids (ICons x xs))).
+    { intros H. destruct (Hx k H) as [j [A B]]. exists j. split; [exact A|]. cbn [L.ids_kids]. apply in_or_app. left. exact B. }
+    assert (Hown : In k (tk (item_id x)) -> exists j, k = KName j /\ In j (L.ids_kids (ICons x xs))).
+    { intros H. exists (item_id x). split; [apply tk_in; exact H|]. cbn [L.ids_kids]. apply in_or_app. left. apply L.item_id_in_ids. }
+    rewrite titles_assemble_cons in Hin. destruct (item_redef x) as [u|].
+    - apply in_app_or in Hin as [H|H]; [apply Hown; exact H|apply Hrest; exact H].
+    - destruct (existsb (N.eqb (item_id x)) (redef_targets xs)).
+      + apply in_app_or in Hin as [H|H].
+        * apply in_app_or in H as [H|H]; [apply Hhead; exact H|].
+          destruct (titles_alts_red _ _ _ H) as [y [A [_ B]]].
+          destruct (Hxs y A k B) as [j [C D]]. exists j. split; [exact C|]. cbn [L.ids_kids]. apply in_or_app. right.
+          apply (L.in_kids_ids_incl y xs A). exact D.
+        * apply in_app_or in H as [H|H]; [apply Hown; exact H|apply Hrest; exact H].
+      + apply in_app_or in Hin as [H|H]; [apply Hhead; exact H|apply Hrest; exact H].
+  Qed.
+
+  Lemma T3_kids ks :
+    NoDup (L.ids_kids ks) -> (forall y, L.in_kids y ks -> NoDup (L.ids y) -> T1 y /\ T3 y) ->
+    forall j, In j (decl_kids ks) -> ~ In (KName j) (titles_props (L.assemble_d ks)).
+  Proof.
+    induction ks as [|x xs IH]; intros Hnd Hk j Hj; [destruct Hj|].
+    cbn [L.ids_kids] in Hnd.
+    pose proof (L.NoDup_app_l _ _ Hnd) as Hndx. pose proof (L.NoDup_app_r _ _ Hnd) as Hndxs.
+    destruct (Hk x (or_introl eq_refl) Hndx) as [T1x T3x].
+    assert (Hxs : forall y, L.in_kids y xs -> NoDup (L.ids y) -> T1 y /\ T3 y) by (intros y Hy; apply Hk; right; exact Hy).
+    assert (HT1xs : forall y, L.in_kids y xs -> T1 y).
+    { intros y Hy. apply (Hxs y Hy). apply (L.NoDup_ids_kid y xs Hy Hndxs). }
+    (* a key titled in the rest names something in the rest *)
+    assert (Hrest : forall i, In (KName i) (titles_props (L.assemble_d xs)) -> In i (L.ids_kids xs)).
+    { intros i H. destruct (T1_kids xs HT1xs _ H) as [i' [A B]]. inversion A; subst. exact B. }
+    assert (Hheadx : forall i, In (KName i) (titles_of (build_alt x)) -> In i (L.ids x)).
+    { intros i H. destruct (T1x _ H) as [i' [A B]]. inversion A; subst. exact B. }
+    assert (Halts : forall i, In (KName i) (titles_alts (L.alts_red (item_id x) xs)) ->
+                    exists y, L.in_kids y xs /\ item_redef y = Some (item_id x) /\ In i (L.ids y)).
+    { intros i H. destruct (titles_alts_red _ _ _ H) as [y [A [B C]]]. exists y. split; [exact A|]. split; [exact B|].
+      destruct (HT1xs y A _ C) as [i' [D E]]. inversion D; subst. exact E. }
+    assert (Hown : forall i, In (KName i) (tk (item_id x)) -> i = item_id x).
+    { intros i H. apply tk_in in H. inversion H. reflexivity. }
+    cbn [decl_kids] in Hj. apply in_app_or in Hj as [Hj|Hj].
+    - (* declared at or inside x: x is not a redefiner *)
+      destruct (item_redef x) eqn:Er; [destruct Hj|].
+      assert (Jx : In j (L.ids x)).
+      { apply in_app_or in Hj as [Hj|Hj].
+        - destruct (eligible x xs); [|destruct Hj]. destruct Hj as [<-|[]]. apply L.item_id_in_ids.
+        - apply (decl_strict x j Hndx Hj). }
+      assert (Hnotrest : ~ In (KName j) (titles_props (L.assemble_d xs))).
+      { intros H. apply (L.NoDup_app_disj _ _ j Hnd Jx). apply Hrest. exact H. }
+      assert (Hnothead : ~ In (KName j) (titles_of (build_alt x))).
+      { apply in_app_or in Hj as [Hj|Hj].
+        - destruct x as [i sz oc rd|]; [|cbn [eligible] in Hj; destruct Hj]. cbn [eligible] in Hj. destruct oc; try destruct Hj.
+          destruct rd; [destruct Hj|]. rewrite elem_titles. intros [].
+        - apply T3x. exact Hj. }
+      rewrite titles_assemble_cons, Er.
+      destruct (existsb (N.eqb (item_id x)) (redef_targets xs)) eqn:Et.
+      + intros H. apply in_app_or in H as [H|H].
+        * apply in_app_or in H as [H|H]; [contradiction|].
+          destruct (Halts j H) as [y [A [_ B]]]. apply (L.NoDup_app_disj _ _ j Hnd Jx). apply (L.in_kids_ids_incl y xs A). exact B.
+        * apply in_app_or in H as [H|H]; [|contradiction].
+          apply Hown in H. subst j. apply in_app_or in Hj as [Hj|Hj].
+          -- destruct x as [i sz oc rd|]; [|cbn [eligible] in Hj; destruct Hj]. cbn [eligible item_id] in *. destruct oc; try destruct Hj.
+             destruct rd; [destruct Hj|]. rewrite Et in Hj. destruct Hj.
+          -- apply (proj2 (decl_strict x _ Hndx Hj)). reflexivity.
+      + intros H. apply in_app_or in H as [H|H]; contradiction.
+    - (* declared in the rest *)
+      destruct (proj2 decl_where xs j Hj) as [z [Zin [Zr Jz]]].
+      assert (Jxs : In j (L.ids_kids xs)) by (apply (L.in_kids_ids_incl z xs Zin); exact Jz).
+      assert (Hnotx : ~ In j (L.ids x)) by (intros H; apply (L.NoDup_app_disj _ _ j Hnd H Jxs)).
+      specialize (IH Hndxs Hxs j Hj).
+      rewrite titles_assemble_cons. destruct (item_redef x) as [u|].
+      + intros H. apply in_app_or in H as [H|H]; [|contradiction].
+        apply Hown in H. subst j. apply Hnotx. apply L.item_id_in_ids.
+      + destruct (existsb (N.eqb (item_id x)) (redef_targets xs)).
+        * intros H. apply in_app_or in H as [H|H].
+          -- apply in_app_or in H as [H|H]; [apply Hnotx, Hheadx, H|].
+             destruct (Halts j H) as [y [A [B C]]].
+             assert (y = z) by (apply (kids_disjoint xs y z j A Zin Hndxs C Jz)). subst y. rewrite Zr in B. discriminate.
+          -- apply in_app_or in H as [H|H]; [|contradiction]. apply Hown in H. subst j. apply Hnotx. apply L.item_id_in_ids.
+        * intros H. apply in_app_or in H as [H|H]; [apply Hnotx, Hheadx, H|contradiction].
+  Qed.
+
+  Lemma titles_facts :
+    (forall x, wf8 e x = true -> NoDup (L.ids x) -> T1 x /\ T3 x)
+    /\ (forall ks, wf8_kids e ks = true -> forall y, L.in_kids y ks -> NoDup (L.ids y) -> T1 y /\ T3 y).
+  Proof.
+    apply item_items_ind.
+    - intros i sz oc rd _ _. split.
+      + intros k Hk. rewrite elem_titles in Hk. destruct oc; [destruct Hk| |]; apply tk_in in Hk; exists i; (split; [exact Hk|left; reflexivity]).
+      + intros j [].
+    - intros i oc rd ks IH Hw Hnd.
+      assert (Hw' := Hw). cbn [wf8] in Hw'. apply andb_true_iff in Hw' as [Hw' _]. apply andb_true_iff in Hw' as [Hwk _].
+      cbn [L.ids item_id] in Hnd. inversion Hnd as [|? ? Hi Hndk]; subst. specialize (IH Hwk).
+      assert (HT1 : forall y, L.in_kids y ks -> T1 y).
+      { intros y Hy. apply (IH y Hy). apply (L.NoDup_ids_kid y ks Hy Hndk). }
+      split.
+      + intros k Hk. rewrite (group_titles i oc rd ks Hndk Hw) in Hk.
+        destruct (T1_kids ks HT1 k Hk) as [j [A B]]. exists j. split; [exact A|]. cbn [L.ids]. right. exact B.
+      + intros j Hj. rewrite (group_titles i oc rd ks Hndk Hw). cbn [decl] in Hj. apply (T3_kids ks Hndk IH j Hj).
+    - intros _ y [].
+    - intros x IHx xs IHxs Hw y Hy Hnd. cbn [wf8_kids] in Hw. apply andb_true_iff in Hw as [Hwx Hwxs].
+      destruct Hy as [->|Hy]; [apply IHx; assumption|apply IHxs; assumption].
+  Qed.
+
+  (* the name of an item is a title inside its own schema only for an elementary OCCURS item *)
+  Lemma T2 x : wf8 e x = true -> NoDup (L.ids x) ->
+    In (KName (item_id x)) (titles_of (build_alt x)) -> L.elem_table x = true.
+  Proof.
+    intros Hw Hnd H. destruct x as [i sz oc rd|i oc rd ks].
+    - rewrite elem_titles in H. destruct oc; [destruct H|reflexivity|reflexivity].
+    - exfalso. assert (Hw' := Hw). cbn [wf8] in Hw'. apply andb_true_iff in Hw' as [Hw' _]. apply andb_true_iff in Hw' as [Hwk _].
+      cbn [L.ids item_id] in *. inversion Hnd as [|? ? Hi Hndk]; subst.
+      rewrite (group_titles i oc rd ks Hndk Hw) in H.
+      assert (HT1 : forall y, L.in_kids y ks -> T1 y).
+      { intros y Hy. apply (proj2 titles_facts ks Hwk y Hy). apply (L.NoDup_ids_kid y ks Hy Hndk). }
+      destruct (T1_kids ks HT1 _ H) as [j [A B]]. inversion A; subst. contradiction.
+  Qed.
+
+  (* ---- walking a built schema ---- *)
+  Definition good_site (p : site) : Prop := exists cl, snd p = Some (cl, Some (fst p)).
+
+  Definition Pre (c : cache) (x : item) (seen : list id) : Prop :=
+    Forall entry_ok c
+    /\ (forall i, In i (L.ids x) -> ~ titled c (KName i))
+    /\ (forall j, In j seen -> usable c (KName j) /\ ~ In j (L.ids x)).
+
+  Definition Main (x : item) : Prop := forall c seen,
+    wf8 e x = true -> NoDup (L.ids x) -> Pre c x seen -> odo_ok seen x = true ->
+    exists c' l, lwalk filler (build_alt x) c = Ok (c', l) /\ Forall good_site l.
+
+  Definition Inv (c : cache) (B : list id) (xs : items) (seen : list id) : Prop :=
+    Forall entry_ok c
+    /\ (forall y, L.in_kids y xs -> (match item_redef y with Some u => ~ In u B | None => True end) ->
+                  forall i, In i (L.ids y) -> ~ titled c (KName i))
+    /\ (forall y u, L.in_kids y xs -> item_redef y = Some u -> In u B -> usable c (KName (item_id y)))
+    /\ (forall j, In j seen -> usable c (KName j) /\ ~ In j (L.ids_kids xs)).
+
+  Lemma name_anchored x j : In j (L.ids x) -> In (KName j) (anchors_of (build_alt x)).
+  Proof. intros H. apply (proj1 ids_are_anchors). apply in_map. rewrite <- (proj1 ids_bridge). exact H. Qed.
+
+  Lemma adds_titled r a t k : adds r a t -> titled r k -> In k t.
+  Proof. intros [_ [_ H]]. apply H. Qed.
+  Lemma adds_keys r a t k : adds r a t -> In k a -> In k (keys r).
+  Proof. intros [_ [H _]]. apply H. Qed.
+  Lemma adds_ok r a t : adds r a t -> Forall entry_ok r.
+  Proof. intros [H _]. exact H. Qed.
+  Lemma keys_app_l r c k : In k (keys r) -> In k (keys (r ++ c)).
+  Proof. intros H. unfold keys. rewrite map_app. apply in_or_app. left. exact H. Qed.
+
+  Lemma odo_kids_redef seen xs y : odo_kids seen xs = true -> L.in_kids y xs -> item_redef y <> None -> odo_ok [] y = true.
+  Proof.
+    revert seen. induction xs as [|x xs IH]; intros seen H Hy Hr; [destruct Hy|].
+    cbn [odo_kids] in H. destruct Hy as [->|Hy].
+    - destruct (item_redef x); [|contradiction]. apply andb_true_iff in H as [H _]. exact H.
+    - destruct (item_redef x); apply andb_true_iff in H as [_ H]; eapply IH; eauto.
+  Qed.
+
+  Lemma unions_redef_not_table bases xs y :
+    L.unions_ok e bases xs = true -> L.in_kids y xs -> item_redef y <> None -> L.elem_table y = false.
+  Proof.
+    revert bases. induction xs as [|x xs IH]; intros bases H Hy Hr; [destruct Hy|].
+    cbn [L.unions_ok] in H. destruct Hy as [->|Hy].
+    - destruct (item_redef x); [|contradiction]. apply andb_true_iff in H as [H _]. apply andb_true_iff in H as [H _].
+      destruct (L.elem_table x); [discriminate|reflexivity].
+    - destruct (item_redef x); apply andb_true_iff in H as [_ H]; eapply IH; eauto.
+  Qed.
+
+  Lemma eligible_not_target x xs : eligible x xs = true -> existsb (N.eqb (item_id x)) (redef_targets xs) = false.
+  Proof.
+    destruct x as [i sz oc rd|]; [|discriminate]. cbn [eligible item_id]. destruct oc; try discriminate. destruct rd; [discriminate|].
+    intros H. apply negb_true_iff in H. exact H.
+  Qed.
+
+  Lemma walk_alts_red u : forall xs c,
+    (forall y, L.in_kids y xs -> Main y) -> wf8_kids e xs = true -> NoDup (L.ids_kids xs) ->
+    Forall entry_ok c ->
+    (forall y, L.in_kids y xs -> item_redef y = Some u -> forall i, In i (L.ids y) -> ~ titled c (KName i)) ->
+    (forall y, L.in_kids y xs -> item_redef y = Some u -> odo_ok [] y = true) ->
+    exists c' l, lwalk_alts filler (L.alts_red u xs) c = Ok (c', l) /\ Forall good_site l.
+  Proof.
+    induction xs as [|y ys IH]; intros c HM Hw Hnd Hok Hnt Hodo; [exists c, []; split; [reflexivity|constructor]|].
+    cbn [wf8_kids] in Hw. apply andb_true_iff in Hw as [Hwy Hwys]. cbn [L.ids_kids] in Hnd.
+    pose proof (L.NoDup_app_l _ _ Hnd) as Hndy. pose proof (L.NoDup_app_r _ _ Hnd) as Hndys.
+    assert (HMys : forall z, L.in_kids z ys -> Main z) by (intros z Hz; apply HM; right; exact Hz).
+    assert (Hskip : exists c' l, lwalk_alts filler (L.alts_red u ys) c = Ok (c', l) /\ Forall good_site l).
+    { apply IH; try assumption; intros z Hz; [apply Hnt|apply Hodo]; right; exact Hz. }
+    cbn [L.alts_red]. destruct (item_redef y) as [u'|] eqn:Er; [|exact Hskip].
+    destruct (N.eqb u u') eqn:E; [|exact Hskip]. apply N.eqb_eq in E. subst u'.
+    destruct (HM y (or_introl eq_refl) c [] Hwy Hndy) as [c1 [l1 [E1 G1]]].
+    { split; [exact Hok|]. split; [apply (Hnt y (or_introl eq_refl) Er)|intros j []]. }
+    { apply (Hodo y (or_introl eq_refl) Er). }
+    destruct (proj1 (lwalk_adds) _ _ _ _ E1) as [r1 [-> A1]].
+    destruct (proj1 titles_facts y Hwy Hndy) as [T1y _].
+    destruct (IH (r1 ++ c) HMys Hwys Hndys) as [c2 [l2 [E2 G2]]].
+    { apply Forall_app. split; [exact (adds_ok _ _ _ A1)|exact Hok]. }
+    { intros z Hz Ez i Hi Ht. apply titled_app in Ht as [Ht|Ht].
+      - apply (adds_titled _ _ _ _ A1) in Ht. destruct (T1y _ Ht) as [i' [Ei Hi']]. inversion Ei; subst.
+        apply (L.NoDup_app_disj _ _ i' Hnd Hi'). apply (L.in_kids_ids_incl z ys Hz). exact Hi.
+      - apply (Hnt z (or_intror Hz) Ez i Hi Ht). }
+    { intros z Hz. apply Hodo. right. exact Hz. }
+    exists c2, (l1 ++ l2). rewrite lwalk_alts_cons, E1, E2. split; [reflexivity|apply Forall_app; split; assumption].
+  Qed.
+
+  Lemma wf8_kids_in y ks : L.in_kids y ks -> wf8_kids e ks = true -> wf8 e y = true.
+  Proof.
+    induction ks as [|x xs IH]; intros Hy Hw; [destruct Hy|]. cbn [wf8_kids] in Hw. apply andb_true_iff in Hw as [A B].
+    destruct Hy as [->|Hy]; [exact A|apply IH; assumption].
+  Qed.
+
+  Lemma anchors_one k s r : anchors_of (JOne (Some k) (ACons s r)) = k :: anchors_of s ++ anchors_alts r.
+  Proof. reflexivity. Qed.
+
+  Lemma loop : forall xs bases c seen,
+    (forall y, L.in_kids y xs -> Main y) ->
+    wf8_kids e xs = true -> NoDup (L.ids_kids xs) -> L.unions_ok e bases xs = true ->
+    (forall u, In u (map fst bases) -> ~ In u (L.kid_ids xs)) ->
+    Inv c (map fst bases) xs seen -> odo_kids seen xs = true ->
+    exists c' l, lwalk_props filler (L.assemble_d xs) c = Ok (c', l) /\ Forall good_site l.
+  Proof.
+    induction xs as [|x xs IH]; intros bases c seen HM Hw Hnd Hu HB HI Hodo;
+      [exists c, []; split; [reflexivity|constructor]|].
+    pose proof (L.unions_sib_ok e bases _ Hu) as Hsib.
+    cbn [wf8_kids] in Hw. apply andb_true_iff in Hw as [Hwx Hwxs]. cbn [L.ids_kids] in Hnd.
+    pose proof (L.NoDup_app_l _ _ Hnd) as Hndx. pose proof (L.NoDup_app_r _ _ Hnd) as Hndxs.
+    destruct HI as [I1 [I2 [I2' I3]]].
+    assert (Mx : Main x) by (apply HM; left; reflexivity).
+    assert (HMxs : forall y, L.in_kids y xs -> Main y) by (intros y Hy; apply HM; right; exact Hy).
+    destruct (proj1 titles_facts x Hwx Hndx) as [T1x T3x].
+    assert (HT1xs : forall y, L.in_kids y xs -> T1 y).
+    { intros y Hy. apply (proj2 titles_facts xs Hwxs y Hy). apply (L.NoDup_ids_kid y xs Hy Hndxs). }
+    assert (Hidx : ~ In (item_id x) (L.ids_kids xs)).
+    { intros H. apply (L.NoDup_app_disj _ _ (item_id x) Hnd (L.item_id_in_ids x) H). }
+    assert (Hkid : forall y, L.in_kids y xs -> incl (L.ids y) (L.ids_kids xs)) by (intros y Hy; apply L.in_kids_ids_incl; exact Hy).
+    assert (Hdisj : forall i, In i (L.ids x) -> In i (L.ids_kids xs) -> False) by (intros i A B; exact (L.NoDup_app_disj _ _ i Hnd A B)).
+    (* a title of x's own schema names something of x *)
+    assert (Htx : forall i, In (KName i) (titles_of (build_alt x)) -> In i (L.ids x)).
+    { intros i H. destruct (T1x _ H) as [i' [A B]]. inversion A; subst. exact B. }
+    assert (Htk : forall i, In (KName i) (tk (item_id x)) -> i = item_id x).
+    { intros i H. apply tk_in in H. inversion H. reflexivity. }
+    cbn [L.unions_ok] in Hu. cbn [L.sib_ok] in Hsib. cbn [odo_kids] in Hodo. cbn [L.assemble_d].
+    destruct (item_redef x) as [u|] eqn:Er.
+    - (* a redefiner: its placeholder *)
+      apply andb_true_iff in Hu as [_ Hux]. apply andb_true_iff in Hsib as [HuB _]. apply L.existsb_eqb_In in HuB.
+      apply andb_true_iff in Hodo as [_ Hodoxs].
+      pose proof (I2' x u (or_introl eq_refl) Er HuB) as Hus.
+      destruct (usable_lookup c _ I1 Hus) as [cl Hl].
+      destruct (register_adds (JRef (KName (item_id x))) CRef c) as [r [Er' Ar]]. cbn [js_anchor] in Er'.
+      assert (Hr : forall i, titled r (KName i) -> i = item_id x).
+      { intros i H. apply (adds_titled _ _ _ _ Ar) in H. rewrite own_title_ref in H. apply Htk. exact H. }
+      destruct (IH bases (r ++ c) seen HMxs Hwxs Hndxs Hux) as [c2 [l2 [E2 G2]]].
+      + intros v Hv Hin. apply (HB v Hv). right. exact Hin.
+      + split; [apply Forall_app; split; [exact (adds_ok _ _ _ Ar)|exact I1]|]. split; [|split].
+        * intros y Hy Hc i Hi Ht. apply titled_app in Ht as [Ht|Ht].
+          -- apply Hr in Ht. subst i. apply Hidx. apply (Hkid y Hy). exact Hi.
+          -- apply (I2 y (or_intror Hy) Hc i Hi Ht).
+        * intros y u' Hy Ey Hu'. apply usable_ext; [apply (I2' y u' (or_intror Hy) Ey Hu')|].
+          intros Ht. apply Hr in Ht. apply Hidx. rewrite <- Ht. apply (Hkid y Hy). apply L.item_id_in_ids.
+        * intros j Hj. destruct (I3 j Hj) as [A Bn]. split.
+          -- apply usable_ext; [exact A|]. intros Ht. apply Hr in Ht. subst j. apply Bn. cbn [L.ids_kids]. apply in_or_app. left. apply L.item_id_in_ids.
+          -- intros H. apply Bn. cbn [L.ids_kids]. apply in_or_app. right. exact H.
+      + exact Hodoxs.
+      + exists c2, ([(KName (item_id x), clookup (KName (item_id x)) c)] ++ l2).
+        rewrite lwalk_props_cons, lwalk_JRef, Er', E2. split; [reflexivity|].
+        apply Forall_app. split; [|exact G2]. constructor; [|constructor]. exists cl. cbn [fst snd]. exact Hl.
+    - (* not a redefiner: x is built in place *)
+      apply andb_true_iff in Hu as [Hux Huxs]. apply andb_true_iff in Hodo as [Hodox Hodoxs].
+      assert (HxB : ~ In (item_id x) (map fst bases)) by (intros H; apply (HB _ H); left; reflexivity).
+      assert (Hnd_kid : ~ In (item_id x) (L.kid_ids xs)).
+      { pose proof (L.NoDup_ids_kid_ids (ICons x xs) Hnd) as H. cbn [L.kid_ids] in H. inversion H; assumption. }
+      assert (HB' : forall v, In v (map fst ((item_id x, extent e x) :: bases)) -> ~ In v (L.kid_ids xs)).
+      { intros v [<-|Hv]; [exact Hnd_kid|]. intros Hin. apply (HB v Hv). right. exact Hin. }
+      assert (I2x : forall i, In i (L.ids x) -> ~ titled c (KName i)).
+      { apply (I2 x (or_introl eq_refl)). rewrite Er. exact I. }
+      destruct (Mx c seen Hwx Hndx) as [c1 [l1 [E1 G1]]].
+      { split; [exact I1|]. split; [exact I2x|]. intros j Hj. destruct (I3 j Hj) as [A Bn]. split; [exact A|].
+        intros H. apply Bn. cbn [L.ids_kids]. apply in_or_app. left. exact H. }
+      { exact Hodox. }
+      destruct (proj1 lwalk_adds _ _ _ _ E1) as [r1 [Ec1 A1]].
+      destruct (existsb (N.eqb (item_id x)) (redef_targets xs)) eqn:Et.
+      + (* x is redefined: REDEFINES-x oneOf [x, its redefiners], then the placeholder of x *)
+        assert (Hnt : L.elem_table x = false).
+        { cbn in Hux. rewrite orb_false_r in Hux. destruct (L.elem_table x); [discriminate|reflexivity]. }
+        assert (Helig : eligible x xs = false).
+        { destruct (eligible x xs) eqn:El; [|reflexivity]. apply eligible_not_target in El. rewrite El in Et. discriminate. }
+        rewrite Helig in Hodoxs. cbn [app] in Hodoxs.
+        destruct (walk_alts_red (item_id x) xs c1 HMxs Hwxs Hndxs) as [c2 [l2 [E2 G2]]].
+        { subst c1. apply Forall_app. split; [exact (adds_ok _ _ _ A1)|exact I1]. }
+        { subst c1. intros y Hy Ey i Hi Ht. apply titled_app in Ht as [Ht|Ht].
+          - apply (adds_titled _ _ _ _ A1) in Ht. apply (Hdisj i (Htx i Ht)). apply (Hkid y Hy). exact Hi.
+          - apply (I2 y (or_intror Hy)) in Ht; [exact Ht| |exact Hi]. rewrite Ey. exact HxB. }
+        { intros y Hy Ey. apply (odo_kids_redef _ xs y Hodoxs Hy). rewrite Ey. discriminate. }
+        set (one := JOne (Some (KRedef (item_id x))) (ACons (build_alt x) (L.alts_red (item_id x) xs))).
+        assert (EJ : lwalk filler one c = Ok (register filler one (COneOf, Some (KRedef (item_id x))) c2, l1 ++ l2)).
+        { unfold one. rewrite lwalk_JOne, lwalk_alts_cons, E1, E2. reflexivity. }
+        destruct (proj1 lwalk_adds _ _ _ _ EJ) as [r3 [Ec3 A3]].
+        unfold one in A3. rewrite anchors_one, titles_one in A3. fold one in A3.
+        (* titles added so far name things of x or of a redefiner of x *)
+        assert (Ht3 : forall i, titled r3 (KName i) ->
+                      In i (L.ids x) \/ exists y, L.in_kids y xs /\ item_redef y = Some (item_id x) /\ In (KName i) (titles_of (build_alt y))).
+        { intros i H. apply (adds_titled _ _ _ _ A3) in H. apply in_app_or in H as [H|H]; [left; apply Htx; exact H|].
+          right. destruct (titles_alts_red _ _ _ H) as [y [A [B C]]]. exists y. auto. }
+        assert (Ht3' : forall i, titled r3 (KName i) -> In i (L.ids x) \/ In i (L.ids_kids xs)).
+        { intros i H. destruct (Ht3 i H) as [H'|[y [A [_ C]]]]; [left; exact H'|right].
+          destruct (HT1xs y A _ C) as [i' [D E]]. inversion D; subst. apply (Hkid y A). exact E. }
+        assert (Hk3 : forall j, In j (L.ids x) -> In (KName j) (keys r3)).
+        { intros j Hj. apply (adds_keys _ _ _ _ A3). right. apply in_or_app. left. apply name_anchored. exact Hj. }
+        assert (Hus : usable (r3 ++ c) (KName (item_id x))).
+        { split; [apply keys_app_l, Hk3, L.item_id_in_ids|]. intros Ht. apply titled_app in Ht as [Ht|Ht].
+          - destruct (Ht3 _ Ht) as [_|[y [A [_ C]]]].
+            + apply (adds_titled _ _ _ _ A3) in Ht. apply in_app_or in Ht as [Ht|Ht].
+              * pose proof (T2 x Hwx Hndx Ht) as Hc. rewrite Hnt in Hc. discriminate.
+              * destruct (titles_alts_red _ _ _ Ht) as [y [A [_ C]]].
+                destruct (HT1xs y A _ C) as [i' [D E']]. inversion D; subst. apply Hidx. apply (Hkid y A). exact E'.
+            + destruct (HT1xs y A _ C) as [i' [D E']]. inversion D; subst. apply Hidx. apply (Hkid y A). exact E'.
+          - apply (I2x _ (L.item_id_in_ids x) Ht). }
+        assert (I13 : Forall entry_ok (r3 ++ c)) by (apply Forall_app; split; [exact (adds_ok _ _ _ A3)|exact I1]).
+        destruct (usable_lookup _ _ I13 Hus) as [cl Hl].
+        destruct (register_adds (JRef (KName (item_id x))) CRef (r3 ++ c)) as [r4 [Er4 A4]]. cbn [js_anchor] in Er4.
+        assert (Hr4 : forall i, titled r4 (KName i) -> i = item_id x).
+        { intros i H. apply (adds_titled _ _ _ _ A4) in H. rewrite own_title_ref in H. apply Htk. exact H. }
+        destruct (IH ((item_id x, extent e x) :: bases) (r4 ++ r3 ++ c) (decl x ++ seen) HMxs Hwxs Hndxs Huxs HB') as [c5 [l5 [E5 G5]]].
+        * split; [apply Forall_app; split; [exact (adds_ok _ _ _ A4)|exact I13]|]. split; [|split].
+          -- intros y Hy Hc i Hi Ht. apply titled_app in Ht as [Ht|Ht]; [apply Hr4 in Ht; subst i; apply Hidx, (Hkid y Hy), Hi|].
+             apply titled_app in Ht as [Ht|Ht].
+             ++ destruct (Ht3 i Ht) as [H'|[y' [A [B C]]]]; [apply (Hdisj i H'), (Hkid y Hy), Hi|].
+                destruct (HT1xs y' A _ C) as [i' [D E']]. inversion D; subst i'.
+                assert (y' = y) by (apply (kids_disjoint xs y' y i A Hy Hndxs E' Hi)). subst y'.
+                rewrite B in Hc. apply Hc. left. reflexivity.
+             ++ apply (I2 y (or_intror Hy)) in Ht; [exact Ht| |exact Hi].
+                destruct (item_redef y); [|exact I]. intros H. apply Hc. right. exact H.
+          -- intros y u' Hy Ey Hu'. 
+             assert (Hidy : In (item_id y) (L.ids_kids xs)) by (apply (Hkid y Hy), L.item_id_in_ids).
+             assert (Hnew : ~ titled r4 (KName (item_id y))) by (intros Ht; apply Hr4 in Ht; apply Hidx; rewrite <- Ht; exact Hidy).
+             destruct Hu' as [<-|Hu'].
+             ++ split.
+                ** rewrite app_assoc. apply keys_app_l. unfold keys. rewrite map_app. apply in_or_app. right.
+                   apply (adds_keys _ _ _ _ A3). right. apply in_or_app. right.
+                   apply (anchors_alts_red _ xs y _ Hy Ey). apply name_anchored. apply L.item_id_in_ids.
+                ** intros Ht. apply titled_app in Ht as [Ht|Ht]; [exact (Hnew Ht)|]. apply titled_app in Ht as [Ht|Ht].
+                   --- destruct (Ht3 _ Ht) as [H'|[y' [A [B C]]]]; [exact (Hdisj _ H' Hidy)|].
+                       destruct (HT1xs y' A _ C) as [i' [D E']]. inversion D; subst i'.
+                       assert (y' = y) by (apply (kids_disjoint xs y' y _ A Hy Hndxs E' (L.item_id_in_ids y))). subst y'.
+                       pose proof (T2 y (wf8_kids_in y xs Hy Hwxs) (L.NoDup_ids_kid y xs Hy Hndxs) C) as Hc.
+                       rewrite (unions_redef_not_table _ xs y Huxs Hy) in Hc; [discriminate|rewrite Ey; discriminate].
+                   --- apply (I2 y (or_intror Hy)) in Ht; [exact Ht| |apply L.item_id_in_ids]. rewrite Ey. exact HxB.
+             ++ rewrite app_assoc. apply usable_ext; [apply (I2' y u' (or_intror Hy) Ey Hu')|].
+                intros Ht. apply titled_app in Ht as [Ht|Ht]; [exact (Hnew Ht)|].
+                destruct (Ht3 _ Ht) as [H'|[y' [A [B C]]]]; [exact (Hdisj _ H' Hidy)|].
+                destruct (HT1xs y' A _ C) as [i' [D E']]. inversion D; subst i'.
+                assert (y' = y) by (apply (kids_disjoint xs y' y _ A Hy Hndxs E' (L.item_id_in_ids y))). subst y'.
+                rewrite Ey in B. inversion B; subst u'. exact (HxB Hu').
+          -- intros j Hj. apply in_app_or in Hj as [Hj|Hj].
+             ++ destruct (decl_strict x j Hndx Hj) as [Jx Jne]. split; [|intros H; exact (Hdisj j Jx H)].
+                split.
+                ** rewrite app_assoc. apply keys_app_l. unfold keys. rewrite map_app. apply in_or_app. right. apply Hk3. exact Jx.
+                ** intros Ht. apply titled_app in Ht as [Ht|Ht]; [apply Hr4 in Ht; exact (Jne Ht)|]. apply titled_app in Ht as [Ht|Ht].
+                   --- apply (adds_titled _ _ _ _ A3) in Ht. apply in_app_or in Ht as [Ht|Ht]; [exact (T3x j Hj Ht)|].
+                       destruct (titles_alts_red _ _ _ Ht) as [y [A [_ C]]].
+                       destruct (HT1xs y A _ C) as [i' [D E']]. inversion D; subst i'. apply (Hdisj j Jx). apply (Hkid y A). exact E'.
+                   --- exact (I2x j Jx Ht).
+             ++ destruct (I3 j Hj) as [A Bn]. 
+                assert (Jnx : ~ In j (L.ids x)) by (intros H; apply Bn; cbn [L.ids_kids]; apply in_or_app; left; exact H).
+                assert (Jnxs : ~ In j (L.ids_kids xs)) by (intros H; apply Bn; cbn [L.ids_kids]; apply in_or_app; right; exact H).
+                split; [|exact Jnxs]. rewrite app_assoc. apply usable_ext; [exact A|].
+                intros Ht. apply titled_app in Ht as [Ht|Ht]; [apply Hr4 in Ht; subst j; apply Jnx, L.item_id_in_ids|].
+                destruct (Ht3' j Ht) as [H|H]; contradiction.
+        * exact Hodoxs.
+        * exists c5, ((l1 ++ l2) ++ [(KName (item_id x), clookup (KName (item_id x)) (r3 ++ c))] ++ l5).
+          fold one. rewrite lwalk_props_cons, EJ, lwalk_props_cons, lwalk_JRef, Ec3, Er4, E5. split; [reflexivity|].
+          apply Forall_app. split; [apply Forall_app; split; assumption|]. apply Forall_app. split; [|exact G5].
+          constructor; [|constructor]. exists cl. cbn [fst snd]. exact Hl.
+      + (* plain child *)
+        subst c1.
+        assert (Ht1 : forall i, titled r1 (KName i) -> In i (L.ids x)).
+        { intros i H. apply Htx. apply (adds_titled _ _ _ _ A1). exact H. }
+        assert (Hk1 : forall j, In j (L.ids x) -> In (KName j) (keys r1)).
+        { intros j Hj. apply (adds_keys _ _ _ _ A1). apply name_anchored. exact Hj. }
+        destruct (IH ((item_id x, extent e x) :: bases) (r1 ++ c)
+                    ((if eligible x xs then [item_id x] else []) ++ decl x ++ seen) HMxs Hwxs Hndxs Huxs HB') as [c5 [l5 [E5 G5]]].
+        * split; [apply Forall_app; split; [exact (adds_ok _ _ _ A1)|exact I1]|]. split; [|split].
+          -- intros y Hy Hc i Hi Ht. apply titled_app in Ht as [Ht|Ht]; [exact (Hdisj i (Ht1 i Ht) (Hkid y Hy i Hi))|].
+             apply (I2 y (or_intror Hy)) in Ht; [exact Ht| |exact Hi].
+             destruct (item_redef y); [|exact I]. intros H. apply Hc. right. exact H.
+          -- intros y u' Hy Ey Hu'. cbn [map fst] in Hu'. destruct Hu' as [<-|Hu'].
+             ++ exfalso. pose proof (L.redef_targets_spec xs y _ Hy Ey) as H. apply existsb_N_In in H. rewrite H in Et. discriminate.
+             ++ apply usable_ext; [apply (I2' y u' (or_intror Hy) Ey Hu')|]. intros Ht.
+                apply (Hdisj _ (Ht1 _ Ht)). apply (Hkid y Hy), L.item_id_in_ids.
+          -- intros j Hj. apply in_app_or in Hj as [Hj|Hj]; [|apply in_app_or in Hj as [Hj|Hj]].
+             ++ destruct (eligible x xs) eqn:El; [|destruct Hj]. destruct Hj as [<-|[]]. split; [|exact Hidx].
+                split; [apply keys_app_l, Hk1, L.item_id_in_ids|]. intros Ht. apply titled_app in Ht as [Ht|Ht].
+                ** apply (adds_titled _ _ _ _ A1) in Ht. destruct x as [i sz oc rd|]; [|discriminate].
+                   cbn [eligible] in El. destruct oc; try discriminate. rewrite elem_titles in Ht. destruct Ht.
+                ** exact (I2x _ (L.item_id_in_ids x) Ht).
+             ++ destruct (decl_strict x j Hndx Hj) as [Jx Jne]. split; [|intros H; exact (Hdisj j Jx H)].
+                split; [apply keys_app_l, Hk1, Jx|]. intros Ht. apply titled_app in Ht as [Ht|Ht].
+                ** apply (adds_titled _ _ _ _ A1) in Ht. exact (T3x j Hj Ht).
+                ** exact (I2x j Jx Ht).
+             ++ destruct (I3 j Hj) as [A Bn].
+                assert (Jnx : ~ In j (L.ids x)) by (intros H; apply Bn; cbn [L.ids_kids]; apply in_or_app; left; exact H).
+                split; [|intros H; apply Bn; cbn [L.ids_kids]; apply in_or_app; right; exact H].
+                apply usable_ext; [exact A|]. intros Ht. exact (Jnx (Ht1 j Ht)).
+        * exact Hodoxs.
+        * exists c5, (l1 ++ l5). rewrite lwalk_props_cons, E1, E5. split; [reflexivity|apply Forall_app; split; assumption].
+  Qed.
+
+  Lemma register_obj_none ps d c : register filler (JObj None ps) d c = c.
+  Proof. reflexivity. Qed.
+
+  Lemma main_all : (forall x, Main x) /\ (forall ks y, L.in_kids y ks -> Main y).
+  Proof.
+    apply item_items_ind.
+    - intros i sz oc rd c seen Hw Hnd [P1 [P2 P3]] Hodo. destruct oc as [|n|cn].
+      + eexists; eexists; split; [reflexivity|constructor].
+      + eexists; eexists; split; [reflexivity|constructor].
+      + cbn [build_alt]. rewrite lwalk_JOdo.
+        assert (exists c1, lwalk filler (elem_items i sz) c = Ok (c1, [])) as [c1 E1] by (eexists; reflexivity).
+        rewrite E1. destruct (proj1 lwalk_adds _ _ _ _ E1) as [r1 [-> A1]].
+        cbn [odo_ok item_oc counter_in] in Hodo. rewrite andb_true_r in Hodo. apply existsb_N_In in Hodo.
+        destruct (P3 cn Hodo) as [Hus _].
+        assert (Hus' : usable (r1 ++ c) (KName cn)).
+        { apply usable_ext; [exact Hus|]. intros Ht. apply (adds_titled _ _ _ _ A1) in Ht. destruct Ht. }
+        destruct (usable_lookup _ _ (proj2 (Forall_app _ _ _) (conj (adds_ok _ _ _ A1) P1)) Hus') as [cl Hl].
+        rewrite Hl. eexists; eexists; split; [reflexivity|]. constructor; [|constructor]. exists cl. reflexivity.
+    - intros i oc rd ks IH c seen Hw Hnd [P1 [P2 P3]] Hodo.
+      assert (Hw' := Hw). cbn [wf8] in Hw'. apply andb_true_iff in Hw' as [Hw' Hoc]. apply andb_true_iff in Hw' as [Hwk Hu].
+      cbn [L.ids item_id] in Hnd. inversion Hnd as [|? ? Hi Hndk]; subst.
+      cbn [odo_ok item_oc] in Hodo. apply andb_true_iff in Hodo as [Hcnt Hok].
+      destruct (loop ks [] c seen IH Hwk Hndk Hu) as [c1 [l1 [E1 G1]]].
+      { intros u []. }
+      { split; [exact P1|]. split; [|split].
+        - intros y Hy _ j Hj. apply P2. cbn [L.ids]. right. apply (L.in_kids_ids_incl y ks Hy). exact Hj.
+        - intros y u _ _ [].
+        - intros j Hj. destruct (P3 j Hj) as [A Bn]. split; [exact A|]. intros H. apply Bn. cbn [L.ids]. right. exact H. }
+      { exact Hok. }
+      destruct oc as [|n|cn].
+      + rewrite (L.build_group_once e) by assumption. rewrite lwalk_JObj, E1. eexists; eexists; split; [reflexivity|exact G1].
+      + destruct (redef_targets ks) eqn:Er; [|discriminate]. cbn [build_alt]. rewrite <- (L.no_redef_assemble ks Er).
+        rewrite lwalk_JArr, lwalk_JObj, E1. eexists; eexists; split; [reflexivity|exact G1].
+      + destruct (redef_targets ks) eqn:Er; [|discriminate]. cbn [build_alt]. rewrite <- (L.no_redef_assemble ks Er).
+        rewrite lwalk_JOdo, lwalk_JObj, E1, register_obj_none.
+        destruct (proj1 (proj2 lwalk_adds) _ _ _ _ E1) as [r1 [-> A1]].
+        cbn [counter_in] in Hcnt. apply existsb_N_In in Hcnt. destruct (P3 cn Hcnt) as [Hus Hn].
+        assert (HT1 : forall y, L.in_kids y ks -> T1 y).
+        { intros y Hy. apply (proj2 titles_facts ks Hwk y Hy). apply (L.NoDup_ids_kid y ks Hy Hndk). }
+        assert (Hus' : usable (r1 ++ c) (KName cn)).
+        { apply usable_ext; [exact Hus|]. intros Ht. apply (adds_titled _ _ _ _ A1) in Ht.
+          destruct (T1_kids ks HT1 _ Ht) as [j [A B]]. inversion A; subst. apply Hn. cbn [L.ids]. right. exact B. }
+        destruct (usable_lookup _ _ (proj2 (Forall_app _ _ _) (conj (adds_ok _ _ _ A1) P1)) Hus') as [cl Hl].
+        rewrite Hl. eexists; eexists; split; [reflexivity|]. apply Forall_app. split; [exact G1|].
+        constructor; [|constructor]. exists cl. reflexivity.
+    - intros y [].
+    - intros x IHx xs IHxs y [->|Hy]; [exact IHx|apply IHxs; exact Hy].
+  Qed.
+
+  Lemma lwalk_sites :
+    (forall s c c' l, lwalk filler s c = Ok (c', l) -> map fst l = site_keys s)
+    /\ (forall ps c c' l, lwalk_props filler ps c = Ok (c', l) -> map fst l = site_keys_props ps)
+    /\ (forall al c c' l, lwalk_alts filler al c = Ok (c', l) -> map fst l = site_keys_alts al).
+  Proof.
+    apply js_props_alts_ind.
+    - intros a sz c c' l H. rewrite lwalk_JAtom in H. inversion H; reflexivity.
+    - intros a n its IH c c' l H. rewrite lwalk_JArr in H.
+      destruct (lwalk filler its c) as [[c1 l1]|] eqn:E1; [|discriminate]. inversion H; subst. apply (IH _ _ _ E1).
+    - intros a cn its IH c c' l H. rewrite lwalk_JOdo in H.
+      destruct (lwalk filler its c) as [[c1 l1]|] eqn:E1; [|discriminate].
+      destruct (clookup (KName cn) c1); [|discriminate]. inversion H; subst.
+      rewrite map_app. change (site_keys (JOdo a cn its)) with (site_keys its ++ [KName cn]). f_equal. exact (IH _ _ _ E1).
+    - intros a ps IH c c' l H. rewrite lwalk_JObj in H.
+      destruct (lwalk_props filler ps c) as [[c1 l1]|] eqn:E1; [|discriminate]. inversion H; subst. apply (IH _ _ _ E1).
+    - intros a al IH c c' l H. destruct al as [|s0 r0]; [discriminate|]. rewrite lwalk_JOne in H.
+      destruct (lwalk_alts filler (ACons s0 r0) c) as [[c1 l1]|] eqn:E1; [|discriminate]. inversion H; subst. apply (IH _ _ _ E1).
+    - intros k c c' l H. rewrite lwalk_JRef in H. inversion H; reflexivity.
+    - intros c c' l H. cbn in H. inversion H; reflexivity.
+    - intros k s IHs r IHr c c' l H. rewrite lwalk_props_cons in H.
+      destruct (lwalk filler s c) as [[c1 l1]|] eqn:E1; [|discriminate].
+      destruct (lwalk_props filler r c1) as [[c2 l2]|] eqn:E2; [|discriminate]. inversion H; subst.
+      rewrite map_app. change (site_keys_props (PCons k s r)) with (site_keys s ++ site_keys_props r). f_equal; [exact (IHs _ _ _ E1)|exact (IHr _ _ _ E2)].
+    - intros c c' l H. cbn in H. inversion H; reflexivity.
+    - intros s IHs r IHr c c' l H. rewrite lwalk_alts_cons in H.
+      destruct (lwalk filler s c) as [[c1 l1]|] eqn:E1; [|discriminate].
+      destruct (lwalk_alts filler r c1) as [[c2 l2]|] eqn:E2; [|discriminate]. inversion H; subst.
+      rewrite map_app. change (site_keys_alts (ACons s r)) with (site_keys s ++ site_keys_alts r). f_equal; [exact (IHs _ _ _ E1)|exact (IHr _ _ _ E2)].
+  Qed.
+
+  Lemma resolve_good c : forall l, Forall good_site l ->
+    exists l', resolve c l = Ok l' /\ map fst l' = map fst l /\ forall k d, In (k, d) l' -> snd d = Some k.
+  Proof.
+    induction l as [|[k o] l IH]; intros H; [exists []; split; [reflexivity|split; [reflexivity|intros k d []]]|].
+    inversion H as [|? ? [cl Hg] Hr]; subst. cbn [fst snd] in Hg. subst o.
+    destruct (IH Hr) as [l' [E [M G]]]. exists ((k, (cl, Some k)) :: l'). cbn [resolve]. rewrite E.
+    split; [reflexivity|]. split; [cbn [map fst]; rewrite M; reflexivity|].
+    intros k' d [Heq|Hin]; [inversion Heq; reflexivity|apply (G k' d Hin)].
+  Qed.
+
+  Lemma load_build t :
+    NoDup (ids_of t) -> wf8 e t = true -> odo_ok [] t = true ->
+    exists l, load filler (build t) = Ok l /\ map fst l = site_keys (build t)
+              /\ forall k d, In (k, d) l -> snd d = Some k.
+  Proof.
+    intros Hnd Hw Hodo. rewrite <- (proj1 ids_bridge) in Hnd.
+    destruct (proj1 main_all t [] [] Hw Hnd) as [c' [l [E G]]].
+    { split; [constructor|]. split; [intros i _ [cl []]|intros j []]. }
+    { exact Hodo. }
+    destruct (resolve_good c' l G) as [l' [Er [M Gl]]].
+    exists l'. unfold load, build. rewrite E, Er. split; [reflexivity|]. split; [|exact Gl].
+    rewrite M. apply (proj1 lwalk_sites _ _ _ _ E).
+  Qed.
+End LoadP.
